@@ -88,11 +88,19 @@ def _one(args):
             if vtype != "sympy" and k == 1:
                 N = min(N, 4)
             corner = "zero_block" if idx < 6 else "degenerate_fd" if idx < 12 and d >= 4 else \
-                "selective_last" if idx < 18 else "partial_tuple" if idx < 24 else None
+                "selective_last" if idx < 18 else "partial_tuple" if idx < 24 else \
+                "large_offset" if idx < 30 else None
             kw = {}
             if corner is not None or (vtype == "sympy" and d >= 4):
                 # exact sympy runs of 5x5 complex problems at order 5 take minutes
                 N = min(N, 4 if k == 1 else 3)
+            offset_after = False
+            if corner == "large_offset":
+                # a fully diagonalised block with distinct AND degenerate levels (the degenerate_fd
+                # construction), far from zero energy: the level spacings are 1e-6 of the levels
+                corner, offset_after = "degenerate_fd", True
+                kw = dict(sizes=rng.choice([[3, 1], [1, 3], [3, 2], [2, 3]]), shuffle=False)
+                d = sum(kw["sizes"])
             if corner == "partial_tuple":
                 kw = dict(sizes=rng.choice([[2, 2], [1, 2], [2, 3], [2, 1, 2], [3, 2]]), shuffle=False)
                 kw["d"] = sum(kw["sizes"])
@@ -107,6 +115,8 @@ def _one(args):
             continue
         if all(hermitian.epair(e) == (0, 0) for e in inst["E"]):
             continue     # H_0 = 0 is refused up front by the library (ValueError): not an accepted input
+        if offset_after:
+            hermitian.add_offset(inst)
         # every third sympy instance has SYMBOLIC unperturbed levels and a symbolic coupling constant
         if vtype == "sympy" and idx % len(VTYPES) == 5 and inst["d"] <= 4 and not any(
                 epair_[1] != 0 for epair_ in map(hermitian.epair, inst["E"])):
